@@ -249,11 +249,16 @@ def run(ck):
     from spsdk.utils.images import BinaryImage
     from spsdk.utils.misc import BinaryPattern
 
-    ck.lean_obligations()
+    # BinImageGeo: the geometry code of images.py as it is written now (tools/extract/gen_C16.py); PyFuns*/EnumTables: C20's parts, because the
+    # `len_generated` theorem uses `align` through C20's contract (Properties/C20.lean is imported by Proofs/BinImageGen.lean)
+    ck.lean_obligations(generated=["PyFuns", "PyFuns2", "EnumTables", "BinImageGeo"])
+    ck.spec_ops = set()   # no driver op of C16 is Spec-only; no oracle expectation or finding predicate uses a driver answer
     drv = ck.driver()
     rng = ck.rng
     scratch = os.environ["VERIF_SCRATCH"]
-    ck.assume("ELF loading, draw() and the 'rand' pattern are not modelled", "bincopy's HEX/SREC writer and reader are third party (installed 20.1.1, outside /repo): "
+    ck.assume("generated geometry part: math.floor(a / b) / math.ceil(a / b) in aligned_start / aligned_length are read as exact integer floor / ceiling "
+              "(true for operands below 2^53; image addresses and sizes are)",
+              "ELF loading, draw() and the 'rand' pattern are not modelled", "bincopy's HEX/SREC writer and reader are third party (installed 20.1.1, outside /repo): "
               "their text syntax is modelled in Lean (Model/HexFmt.lean) for ascending non-overlapping segments and tied to the installed library by the hexfmt_model stream; "
               "trees with overlapping data-carrying nodes (pattern under binary, overwrite=True) are decided by running the real code only",
               "negative offsets are covered by the oracle only (validate must refuse them)")
